@@ -168,3 +168,67 @@ func verifC01(ssa bool) {
 
 func VerifC01_Converges() { verifC01(false) }
 func VerifC01_SSA()       { verifC01(true) }
+
+// verifC01Drift: after convergence an outside actor changes a field the hook
+// specifies (the API server bumps the generation); the next syncs must repair
+// it where the strategy permits updates, and go quiet again.
+func verifC01Drift(ssa bool) {
+	common.VerifResetSSAMemo()
+	w := env.NewWorld()
+	parent := env.Thing("ns", "p", "puid")
+	w.Srv.Put("things", parent)
+	method := rt.OneOf(rt.String("method"), "InPlace", "Recreate", "OnDelete")
+	rt.Assume(method == "InPlace" || method == "Recreate" || method == "OnDelete")
+	desVal := rt.String("desVal")
+	tampered := rt.String("tampered")
+	rt.Assume(tampered != desVal)
+	mk := func() *unstructured.Unstructured {
+		o := env.Obj("apps.ex.com/v1", "Widget", "ns", "a", "")
+		o.Object["spec"] = map[string]interface{}{"k": desVal}
+		return o
+	}
+	hook := &verifHook{enabled: true, fn: func(req *v1.CompositeHookRequest) (*v1.CompositeHookResponse, error) {
+		return &v1.CompositeHookResponse{Children: []*unstructured.Unstructured{mk()}, Status: map[string]interface{}{"phase": "ok"}}, nil
+	}}
+	pc := verifNewPC(w, verifPCConfig{
+		ParentRes: env.ThingRes, GenerateSelector: true, SSA: ssa,
+		Children: []verifChildRule{{Res: env.WidgetRes, Strategy: verifStrategyOf(method)}},
+		Sync:     hook,
+	})
+	for i := 0; i < 2; i++ {
+		pc.SnapshotFromStore()
+		rt.Assert(pc.syncParentObject(pc.W.Srv.All("things")[0]) == nil, "drift/initial-sync-error")
+	}
+	a := w.Srv.Peek("widgets", "ns", "a")
+	rt.Assert(a != nil, "drift/child-not-created")
+	if a == nil {
+		return
+	}
+	// someone edits the field the hook owns
+	t := a.DeepCopy()
+	t.Object["spec"] = map[string]interface{}{"k": tampered}
+	t.SetGeneration(a.GetGeneration() + 1)
+	t.SetResourceVersion(a.GetResourceVersion() + "+")
+	w.Srv.Put("widgets", t)
+	for i := 0; i < 3; i++ {
+		pc.SnapshotFromStore()
+		_ = pc.syncParentObject(pc.W.Srv.All("things")[0])
+	}
+	cur := w.Srv.Peek("widgets", "ns", "a")
+	rt.Assert(cur != nil, "drift/child-missing-after-repair")
+	if cur != nil && (ssa || method != "OnDelete") {
+		rt.Cover("drift-repaired")
+		sp, _ := cur.Object["spec"].(map[string]interface{})
+		k, _ := sp["k"].(string)
+		rt.Assert(k == desVal, "drift/specified-field-not-repaired-after-external-edit")
+	}
+	w.Srv.ResetLog()
+	pc.SnapshotFromStore()
+	_ = pc.syncParentObject(pc.W.Srv.All("things")[0])
+	for _, r := range w.Srv.Writes() {
+		rt.Assert(false, "drift/hot-loop-"+r.Verb+"-"+r.Resource+r.Sub)
+	}
+}
+
+func VerifC01_DriftRepair()    { verifC01Drift(false) }
+func VerifC01_DriftRepairSSA() { verifC01Drift(true) }
